@@ -138,14 +138,21 @@ Fixpoint dedup_struct (seen : list row) (l : list row) : list row :=
   | r :: t => if existsb (row_eqb r) seen then dedup_struct seen t else r :: dedup_struct (r :: seen) t
   end.
 
-(** K1: a filter fed with a chunk that carries a selection vector (operator level) /
-        two stacked filters (engine level), and the answer really differs from the specification *)
+(** K1 (fixed by df57ccb; kept for the record, evaluated on the transcription of the OLD operator):
+        a filter fed with a chunk that carries a selection vector (operator level) / two stacked
+        filters (engine level), and the old answer really differed from the specification *)
 Definition k_filter_sel (p : expr) (cs : list chunk) : bool :=
   negb (sel_free cs)
-  && negb (rows_eqb (rows_of (drain_filter fa_none row_env p cs))
+  && negb (rows_eqb (rows_of (drain_filter_pre fa_none row_env p cs))
                     (filter (row_passes fa_none row_env p) (rows_of cs))).
+Definition eng_stacked_pre (tab : list env) (scan : list Z) (p1 p2 : expr) : list row :=
+  rows_of (drain_filter_pre fa_none (tab_env tab) p2
+             (match range_pred p1 with
+              | Some _ => where_chunks fa_none tab p1 (int_rows_of scan)
+              | None => drain_filter_pre fa_none (tab_env tab) p1 (scan_chunks (int_rows_of scan))
+              end)).
 Definition k_stacked (tab : list env) (scan : list Z) (p1 p2 : expr) : bool :=
-  negb (zlist_eqb (sort_z (ids_of (eng_stacked tab scan p1 p2))) (sort_z (ids_of (spec_stacked tab scan p1 p2)))).
+  negb (zlist_eqb (sort_z (ids_of (eng_stacked_pre tab scan p1 p2))) (sort_z (ids_of (spec_stacked tab scan p1 p2)))).
 (** K2: GQL, SKIP/LIMIT together with ORDER BY or an aggregate *)
 Definition k_gql_window (ord : bool) (s n : option Z) (keys : list Z) : bool :=
   ord && negb (rows_eqb (window_query Gql ord s n (int_rows_of keys)) (window_spec ord s n (int_rows_of keys))).
